@@ -30,4 +30,7 @@ def explore(core, rng, tier, seed, search=False):
             scripts.append(sc)
             hist[n] = hist.get(n, 0) + 1
     nt = lambda sc: sc[0].count(",") >= 1
+    # lengths at the top of the int range (zero-size elements): the midpoint computation must not overflow
+    M = 2**63 - 1
+    scripts.append(["bsearchunits %d %d" % (n, a) for n in (0, 1, 1 << 20, M // 2 - 1, M // 2, M // 2 + 1, M // 2 + 2, M // 4 * 3 + 5, M - 1, M) for a in (0, 1)])
     return scriptprop.explore(core, ID, scripts, nontrivial=nt, stats={"length_histogram": hist})
